@@ -257,6 +257,52 @@ func engineNilRead(rep *Report) {
 		}
 		// (c) new(T): valid and empty
 		c.readsAsEmpty("new(T)", newOf(s.Zero).ProtoReflect(), dynamicpb.NewMessage(d).ProtoReflect(), true, 0)
+		// (c') new(T) whose lists/maps/bytes/unknown buffer are allocated but empty: the same empty message
+		E := newOf(s.Zero)
+		nilToEmpty(reflect.ValueOf(E), 0)
+		c.readsAsEmpty("new(T) with empty allocated containers", E.ProtoReflect(), dynamicpb.NewMessage(d).ProtoReflect(), true, 2)
+		{
+			er := E.ProtoReflect()
+			efs := d.Fields()
+			for i := 0; i < efs.Len(); i++ {
+				fd := efs.Get(i)
+				switch {
+				case fd.IsList():
+					l := er.Get(fd).List()
+					pan, _ := safely(func() {
+						if fd.Kind() == protoreflect.MessageKind {
+							l.Append(l.NewElement())
+						} else {
+							l.Append(fd.Default())
+						}
+					})
+					c.rep.Count("C09", "write-attempts", 1)
+					if !pan {
+						c.bad("write-silently-accepted/List.Append", "Get("+string(fd.Name())+") of an empty allocated list", "Append through the view returned by Get for an unpopulated list does not panic")
+						E = newOf(s.Zero)
+						nilToEmpty(reflect.ValueOf(E), 0)
+						er = E.ProtoReflect()
+					}
+				case fd.IsMap():
+					mp := er.Get(fd).Map()
+					pan, _ := safely(func() {
+						k := fd.MapKey().Default().MapKey()
+						if fd.MapValue().Kind() == protoreflect.MessageKind {
+							mp.Set(k, mp.NewValue())
+						} else {
+							mp.Set(k, fd.MapValue().Default())
+						}
+					})
+					c.rep.Count("C09", "write-attempts", 1)
+					if !pan {
+						c.bad("write-silently-accepted/Map.Set", "Get("+string(fd.Name())+") of an empty allocated map", "Set through the view returned by Get for an unpopulated map does not panic")
+						E = newOf(s.Zero)
+						nilToEmpty(reflect.ValueOf(E), 0)
+						er = E.ProtoReflect()
+					}
+				}
+			}
+		}
 		// (d) read-only views obtained from Get on unpopulated composite fields of new(T)
 		fresh := newOf(s.Zero).ProtoReflect()
 		fs := d.Fields()
@@ -327,9 +373,15 @@ func (c *nrCtx) structNils(s *glue.Subject, d MD) {
 			switch fv.Kind() {
 			case reflect.Slice:
 				if fv.Type().Elem().Kind() == reflect.Ptr && fv.Type().Elem().Elem().Kind() == reflect.Struct {
-					sl := reflect.MakeSlice(fv.Type(), 2, 2)
+					sl := reflect.MakeSlice(fv.Type(), 4, 4)
 					sl.Index(1).Set(reflect.New(fv.Type().Elem().Elem()))
-					fv.Set(sl) // [nil, &T{}]
+					// a populated element before a nil one (sizes of earlier elements must not leak into the nil one)
+					if pm, ok := reflect.New(fv.Type().Elem().Elem()).Interface().(proto.Message); ok {
+						g := NewGen(int64(i)+77, GenOpts{MaxDepth: 1, PFill: 0.9, MaxElems: 2, NoSNaN: true, ValidEnums: true})
+						pop := BuildStruct(pm, g.Msg(pm.ProtoReflect().Descriptor(), 0))
+						sl.Index(2).Set(reflect.ValueOf(pop))
+					}
+					fv.Set(sl) // [nil, &T{}, populated, nil]
 					made = append(made, "nil-list-element:"+sf.Name)
 				}
 			case reflect.Map:
